@@ -466,6 +466,51 @@ def check_shared_components(acc):
     acc.outcome('shared-components')
 
 
+def check_cline_apps(acc):
+    """The bottle-like spelling: every registering method of a Cline application adds to that application and to no
+    other - neither to a second Cline nor to the module-level default application behind the bare decorators."""
+    import itertools
+    from clastic import cline as _cl
+    from clastic.cline import Cline
+    verbs = ['route', 'get', 'post', 'put', 'delete', 'patch', 'head']
+    http = {'route': 'GET', 'get': 'GET', 'post': 'POST', 'put': 'PUT', 'delete': 'DELETE', 'patch': 'PATCH', 'head': 'HEAD'}
+    for v1, v2 in itertools.product(verbs, repeat=2):
+        for style in ('decorator', 'direct'):
+            apps = {'A': Cline(), 'B': Cline(), 'default': _cl.DEFAULT_APP}
+            before = dict((k, list(a.routes)) for k, a in apps.items())
+            ok = True
+            for name, verb, path in (('A', v1, '/zq-a'), ('B', v2, '/zq-b')):
+                fn = (lambda name=name: 'from ' + name)
+                try:
+                    if style == 'decorator':
+                        getattr(apps[name], verb)(path)(fn)
+                    else:
+                        getattr(apps[name], verb)(path, endpoint=fn) if verb != 'route' else apps[name].route(path, None, fn)
+                except Exception as e:
+                    acc.violation('C11:cline:%s-raised' % verb, 'Cline.%s(%r) raised %r' % (verb, path, e), {'part': 'cline'})
+                    ok = False
+            acc.transitions += 2
+            acc.validated += 1
+            if not ok:
+                continue
+            for name, verb, path, other in (('A', v1, '/zq-a', '/zq-b'), ('B', v2, '/zq-b', '/zq-a')):
+                r = wsgi.call(apps[name], path, http[verb])
+                r2 = wsgi.call(apps[name], other, 'GET')
+                acc.transitions += 2
+                if r.raised is not None or r.code != 200 or (http[verb] != 'HEAD' and r.body != b'from ' + name.encode()):
+                    acc.violation('C11:cline:own-route-missing:%s' % verb, 'application %s registered %s via .%s() (%s) and answers %s %s -> %s'
+                                  % (name, path, verb, style, http[verb], path, r.status), {'part': 'cline'})
+                if r2.code != 404:
+                    acc.violation('C11:cline:foreign-route:%s' % verb, 'application %s answers %s for %s, registered on the other '
+                                  'application' % (name, r2.status, other), {'part': 'cline'})
+            if list(_cl.DEFAULT_APP.routes) != before['default']:
+                acc.violation('C11:cline:default-app-changed', 'registering on two Cline applications (.%s / .%s, %s) changed the '
+                              'module-level default application: %d -> %d routes' % (v1, v2, style, len(before['default']),
+                                                                                    len(_cl.DEFAULT_APP.routes)), {'part': 'cline'})
+                del _cl.DEFAULT_APP.routes[:]
+                _cl.DEFAULT_APP.routes.extend(before['default'])
+
+
 def check_render_factories(acc):
     """Applications with render factories of their own: whatever one application's factory has built, loaded or
     remembered never shows in another application - in every order of construction and of first requests, also when
@@ -639,6 +684,8 @@ def shard(tier, i, n, seed):
         check_shared_exception(acc)
     if i == 5 % n:
         check_shared_components(acc)
+    if i == 6 % n:
+        check_cline_apps(acc)
     for k, hist in enumerate(states):
         if k % n != i:
             continue
@@ -681,6 +728,9 @@ def replay(case):
     acc = common.Acc()
     if case.get('part') == 'shared-components':
         check_shared_components(acc)
+        return (False, acc.violations[0]['desc'][:3000]) if acc.violations else (True, 'ok')
+    if case.get('part') == 'cline':
+        check_cline_apps(acc)
         return (False, acc.violations[0]['desc'][:3000]) if acc.violations else (True, 'ok')
     if case.get('part') == 'shared-exception':
         check_shared_exception(acc)
